@@ -38,41 +38,49 @@ func main() { lib.Main("C03", run) }
 
 // rec is one recorded case (see spec/StringLit/JudgeQuote.tla for the meaning of the fields).
 type rec struct {
-	API     string  `json:"api"`
-	Pref    string  `json:"pref"`
-	Ctx     string  `json:"ctx"`
-	S       []int   `json:"s"`
-	Q       []int   `json:"q"`
-	Kind    string  `json:"kind"`
-	Pr      []int   `json:"pr"`
-	Perr    bool    `json:"perr"`
-	Single  bool    `json:"single"`
-	Val     []int   `json:"val"`
-	Evc     string  `json:"evc"`
-	Ev      [][]int `json:"ev"`
-	Special bool    `json:"special"`
+	S       []int `json:"s"`
+	Q       []int `json:"q"`
+	By      []by  `json:"by"`
+	Pr      []int `json:"pr"`
+	Special bool  `json:"special"`
+	Obs     []obs `json:"obs"`
 }
 
-// what is replayed: the string and the API/context
-type replayCase struct {
-	S    []int  `json:"s"`
+type by struct {
 	API  string `json:"api"`
 	Pref string `json:"pref"`
-	Ctx  string `json:"ctx"`
+	Kind string `json:"kind"`
+}
+
+type obs struct {
+	Ctx    string  `json:"ctx"`
+	Perr   bool    `json:"perr"`
+	Single bool    `json:"single"`
+	Val    []int   `json:"val"`
+	Evc    string  `json:"evc"`
+	Ev     [][]int `json:"ev"`
+}
+
+// what is replayed: the string
+type replayCase struct {
+	S []int `json:"s"`
 }
 
 var prefType = map[string]parse.PrimaryType{"bare": parse.Bareword, "single": parse.SingleQuoted, "double": parse.DoubleQuoted}
 var typeName = map[parse.PrimaryType]string{parse.Bareword: "bare", parse.SingleQuoted: "single", parse.DoubleQuoted: "double"}
 
-type variant struct{ api, pref, ctx string }
+type api struct {
+	name, pref string
+	ctxs       []string // the contexts the function's result is meant for
+}
 
-var variants = []variant{
-	{"Quote", "bare", "arg"}, {"Quote", "bare", "key"},
-	{"QuoteAs", "bare", "arg"}, {"QuoteAs", "bare", "key"},
-	{"QuoteAs", "single", "arg"}, {"QuoteAs", "single", "key"},
-	{"QuoteAs", "double", "arg"}, {"QuoteAs", "double", "key"},
-	{"QuoteCommandName", "bare", "cmd"},
-	{"QuoteVariableName", "bare", "var"},
+var apis = []api{
+	{"Quote", "bare", []string{"arg", "key"}},
+	{"QuoteAs", "bare", []string{"arg", "key"}},
+	{"QuoteAs", "single", []string{"arg", "key"}},
+	{"QuoteAs", "double", []string{"arg", "key"}},
+	{"QuoteCommandName", "bare", []string{"cmd"}},
+	{"QuoteVariableName", "bare", []string{"var"}},
 }
 
 func bytesOf(b []int) string {
@@ -241,17 +249,15 @@ func announce(name string) func(fm *eval.Frame) error {
 	return func(fm *eval.Frame) error { return fm.ValueOutput().Put(name) }
 }
 
-// observe runs one case on the real code.
-func observe(ev *eval.Evaler, s string, v variant) rec {
-	q, kind := quoteReal(v.api, v.pref, s)
-	code, from, to := program(v.ctx, q)
-	r := rec{API: v.api, Pref: v.pref, Ctx: v.ctx, S: elv.Bytes(s), Q: elv.Bytes(q), Kind: kind,
-		Pr: printables(s, q), Special: eval.IsBuiltinSpecial[s]}
+// observe runs one (string, text, context) on the real code.
+func observe(ev *eval.Evaler, s, q, ctx string) obs {
+	code, from, to := program(ctx, q)
+	o := obs{Ctx: ctx}
 	var val string
-	r.Perr, r.Single, val = project(v.ctx, code, from, to)
-	r.Val = elv.Bytes(val)
+	o.Perr, o.Single, val = project(ctx, code, from, to)
+	o.Val = elv.Bytes(val)
 	var global *eval.Ns
-	switch v.ctx {
+	switch ctx {
 	case "cmd":
 		// the function registered under the name s, and decoys under the quoted text and a neighbour
 		nb := eval.BuildNs().AddGoFn(s, announce(s))
@@ -270,8 +276,36 @@ func observe(ev *eval.Evaler, s string, v variant) rec {
 		}
 		global = nb.Ns()
 	}
-	r.Evc, r.Ev = runCode(ev, code, global)
-	return r
+	o.Evc, o.Ev = runCode(ev, code, global)
+	return o
+}
+
+// observeString quotes s with every real quoting function and observes every distinct text in the
+// contexts of the functions that produced it.
+func observeString(ev *eval.Evaler, s string) []rec {
+	var out []rec
+	idx := map[string]int{}
+	for _, a := range apis {
+		q, kind := quoteReal(a.name, a.pref, s)
+		i, ok := idx[q]
+		if !ok {
+			i = len(out)
+			idx[q] = i
+			out = append(out, rec{S: elv.Bytes(s), Q: elv.Bytes(q), Pr: printables(s, q), Special: eval.IsBuiltinSpecial[s]})
+		}
+		r := &out[i]
+		r.By = append(r.By, by{a.name, a.pref, kind})
+	next:
+		for _, ctx := range a.ctxs {
+			for _, o := range r.Obs {
+				if o.Ctx == ctx {
+					continue next
+				}
+			}
+			r.Obs = append(r.Obs, observe(ev, s, q, ctx))
+		}
+	}
+	return out
 }
 
 func classSig(s string) string {
@@ -322,15 +356,24 @@ func judge(c *lib.Ctx, name string, recs []rec) error {
 		c.AddTraces(hi - lo)
 		for _, b := range bad {
 			r := recs[lo+b.Index]
-			why := "?"
-			if len(b.Info) > 0 {
-				why = fmt.Sprint(b.Info[0])
+			why, ctx := "?", ""
+			if len(b.Info) > 1 {
+				why, ctx = fmt.Sprint(b.Info[0]), fmt.Sprint(b.Info[1])
 			}
 			s, q := bytesOf(r.S), bytesOf(r.Q)
-			key := fmt.Sprintf("%s:%s(%s):%s:%s", why, r.API, r.Pref, r.Ctx, classSig(s))
-			c.Reject(key, fmt.Sprintf("%s(%q, %s) = %q used as %s: rejected at %s: perr=%v single=%v val=%q eval=%s %q",
-				r.API, s, r.Pref, q, r.Ctx, why, r.Perr, r.Single, bytesOf(r.Val), r.Evc, evStrings(r.Ev)),
-				replayCase{r.S, r.API, r.Pref, r.Ctx})
+			var names []string
+			for _, y := range r.By {
+				names = append(names, y.API+"("+y.Pref+")")
+			}
+			detail := ""
+			for _, o := range r.Obs {
+				if o.Ctx == ctx {
+					detail = fmt.Sprintf("perr=%v single=%v val=%q eval=%s %q", o.Perr, o.Single, bytesOf(o.Val), o.Evc, evStrings(o.Ev))
+				}
+			}
+			key := fmt.Sprintf("%s:%s:%s:%s", why, strings.Join(names, "+"), ctx, classSig(s))
+			c.Reject(key, fmt.Sprintf("%q quoted as %q by %s, used as %s: rejected at %s: %s",
+				s, q, strings.Join(names, ","), ctx, why, detail), replayCase{r.S})
 		}
 	}
 	return nil
@@ -344,9 +387,9 @@ func evStrings(ev [][]int) []string {
 	return out
 }
 
-// observeAll runs every variant on every string in parallel (one Evaler per worker).
-func observeAll(c *lib.Ctx, strs []string, vs []variant) []rec {
-	out := make([]rec, len(strs)*len(vs))
+// observeAll observes every string in parallel (one Evaler per worker).
+func observeAll(c *lib.Ctx, strs []string) []rec {
+	per := make([][]rec, len(strs))
 	const workers = 8
 	var wg sync.WaitGroup
 	for w := 0; w < workers; w++ {
@@ -355,18 +398,23 @@ func observeAll(c *lib.Ctx, strs []string, vs []variant) []rec {
 			defer wg.Done()
 			ev := elv.New()
 			for i := w; i < len(strs); i += workers {
-				for j, v := range vs {
-					out[i*len(vs)+j] = observe(ev, strs[i], v)
-				}
+				per[i] = observeString(ev, strs[i])
 			}
 		}(w)
 	}
 	wg.Wait()
-	c.AddEvals(len(out))
-	for _, r := range out {
-		if len(r.Q) != len(r.S) {
-			c.Distinct([]any{r.API, r.Pref, r.Ctx, r.S})
+	var out []rec
+	for _, rs := range per {
+		for _, r := range rs {
+			c.AddEvals(len(r.Obs))
+			if len(r.Q) != len(r.S) {
+				for _, y := range r.By {
+					c.Distinct([]any{y.API, y.Pref, r.S})
+				}
+			}
+			c.Inc("observations", int64(len(r.Obs)))
 		}
+		out = append(out, rs...)
 	}
 	return out
 }
@@ -376,34 +424,50 @@ func run(c *lib.Ctx) error {
 		return replay(c)
 	}
 	maxLen := c.Pick(3, 4)
-	c.Set("rule", "a case is (quoting function, preference, context, string); distinct by those; non-trivial = the quoted text differs in length from the string (quoting was needed)")
+	c.Set("rule", "a case is (quoting function, preference, string), observed in each context the function is meant for; distinct by those; non-trivial = the quoted text differs in length from the string (quoting was needed)")
 	c.Assume("unicode.IsPrint of the non-ASCII code points of a case is supplied by the executor as data (field pr); TLC, the Json module and the Go executor's projection of the parse tree are trusted")
-	c.Assume("how a command head or variable name containing ':' or starting with '@', a special command's name or the empty command name is resolved is Unspecified (judged at specification and parser level only)")
+	c.Assume("how a command head or variable name containing ':' or starting with '@', or a special command's name is resolved is Unspecified (judged at specification and parser level only)")
 
+	only := os.Getenv("C03_ONLY") // development aid: run one stage only (M, V or G)
+	if only == "G" {
+		return literals(c)
+	}
 	// ---- M
-	if err := modelCheck(c, maxLen); err != nil {
-		return err
+	if only != "V" {
+		if err := modelCheck(c, maxLen); err != nil {
+			return err
+		}
+	}
+	if only == "M" {
+		return nil
 	}
 
 	// ---- V: the enumerated strings, directed strings, random strings
 	strs := enumerate(c, maxLen)
 	nEnum := len(strs)
 	strs = append(strs, directed()...)
-	nRand := c.Pick(3000, 60000)
+	nRand := c.Pick(2000, 30000)
 	strs = append(strs, randomStrings(c, nRand)...)
 	c.Set("bounds", map[string]any{"max_len_enumerated": maxLen, "alphabets": len(alphabets), "enumerated_strings": nEnum,
-		"directed_strings": len(directed()), "random_strings": nRand, "random_max_len": 64, "variants_per_string": len(variants)})
-	c.Logf("V: %d strings x %d variants", len(strs), len(variants))
-	recs := observeAll(c, strs, variants)
+		"directed_strings": len(directed()), "random_strings": nRand, "random_max_len": 64, "quoting_functions": len(apis)})
+	c.Logf("V: %d strings x %d quoting functions", len(strs), len(apis))
+	recs := observeAll(c, strs)
 	for i := 0; i < 3 && i < len(recs); i++ {
 		c.Sample(recs[(i*7919+len(recs)/2)%len(recs)])
 	}
 	c.Logf("V: %d records, judging", len(recs))
+	if d := os.Getenv("C03_DUMP"); d != "" {
+		os.WriteFile(d, lib.NDJSON(recs), 0o644)
+		return lib.Infra("dumped")
+	}
 	if err := judge(c, "JudgeQuote", recs); err != nil {
 		return err
 	}
 	c.Set("exhaustive", true)
 
+	if only == "V" {
+		return nil
+	}
 	// ---- G: literal texts with the prescribed denotation
 	return literals(c)
 }
@@ -449,8 +513,7 @@ func replay(c *lib.Ctx) error {
 	if err := json.Unmarshal(f.Case, &rc); err != nil {
 		return lib.Infra("%v", err)
 	}
-	r := observe(elv.New(), bytesOf(rc.S), variant{rc.API, rc.Pref, rc.Ctx})
-	c.AddEvals(1)
-	// pad to the judge's minimum batch is not needed: Judge accepts any number of cases
-	return judge(c, "JudgeQuote/replay", []rec{r})
+	rs := observeString(elv.New(), bytesOf(rc.S))
+	c.AddEvals(len(rs))
+	return judge(c, "JudgeQuote/replay", rs)
 }
